@@ -216,7 +216,10 @@ pub fn run_check(check: &dyn Check, cfg: &RunCfg) -> i32 {
     // supervisor data: per worker (start instant millis since t0, workload, index)
     let progress: Arc<Vec<Mutex<Option<(Instant, usize, u64)>>>> =
         Arc::new((0..cfg.threads).map(|_| Mutex::new(None)).collect());
-    let hung: Arc<Mutex<Option<(usize, u64)>>> = Arc::new(Mutex::new(None));
+    // kernel thread id of every worker and its CPU time when its current case began: the watchdog
+    // decides on CPU time consumed, not on wall-clock time (a loaded machine starves workers)
+    let tids: Arc<Vec<Mutex<(u64, u64)>>> = Arc::new((0..cfg.threads).map(|_| Mutex::new((0, 0))).collect());
+    let hung: Arc<Mutex<Option<(usize, u64, bool)>>> = Arc::new(Mutex::new(None));
 
     std::thread::scope(|s| {
         for t in 0..cfg.threads {
@@ -225,11 +228,13 @@ pub fn run_check(check: &dyn Check, cfg: &RunCfg) -> i32 {
             let stop = stop.clone();
             let agg = agg.clone();
             let progress = progress.clone();
+            let tids = tids.clone();
             let seed = cfg.seed;
             let tier = cfg.tier;
             std::thread::Builder::new()
                 .stack_size(64 << 20)
                 .spawn_scoped(s, move || {
+                    let tid = own_tid();
                     loop {
                         if stop.load(Ordering::Relaxed) {
                             break;
@@ -239,6 +244,7 @@ pub fn run_check(check: &dyn Check, cfg: &RunCfg) -> i32 {
                             break;
                         }
                         let (wi, idx) = plan[i as usize];
+                        *tids[t].lock().unwrap() = (tid, thread_cpu_ms(tid));
                         *progress[t].lock().unwrap() = Some((Instant::now(), wi, idx));
                         let out = run_guarded(check, wi, seed, idx, tier, false);
                         *progress[t].lock().unwrap() = None;
@@ -274,6 +280,7 @@ pub fn run_check(check: &dyn Check, cfg: &RunCfg) -> i32 {
         let sup_next = next.clone();
         let sup_progress = progress.clone();
         let sup_hung = hung.clone();
+        let sup_tids = tids.clone();
         let wall_cap = cfg.wall_cap;
         s.spawn(move || {
             loop {
@@ -286,10 +293,17 @@ pub fn run_check(check: &dyn Check, cfg: &RunCfg) -> i32 {
                 if t0.elapsed() > wall_cap {
                     sup_stop.store(true, Ordering::Relaxed);
                 }
-                for p in sup_progress.iter() {
+                for (t, p) in sup_progress.iter().enumerate() {
                     if let Some((st, wi, idx)) = *p.lock().unwrap() {
                         if st.elapsed() > Duration::from_secs(120) {
-                            *sup_hung.lock().unwrap() = Some((wi, idx));
+                            // one case has been running for two minutes: has it been computing
+                            // all that time (a loop without I/O and without a look at the clock),
+                            // or is the machine busy with other things?
+                            let (tid, cpu0) = *sup_tids[t].lock().unwrap();
+                            let used = thread_cpu_ms(tid).saturating_sub(cpu0);
+                            if (tid != 0 && used > 100_000) || st.elapsed() > Duration::from_secs(3600) {
+                                *sup_hung.lock().unwrap() = Some((wi, idx, tid != 0 && used > 100_000));
+                            }
                         }
                     }
                 }
@@ -304,9 +318,9 @@ pub fn run_check(check: &dyn Check, cfg: &RunCfg) -> i32 {
         // if a worker hangs in a CPU loop the scope would never end: poll and bail out hard
         loop {
             std::thread::sleep(Duration::from_millis(100));
-            if let Some((wi, idx)) = *hung.lock().unwrap() {
-                let replay = write_replay(cfg, id, &format!("{}/hang", id), "case did not finish within 120 s wall clock", wi, idx);
-                if id == "C16" {
+            if let Some((wi, idx, computing)) = *hung.lock().unwrap() {
+                let replay = write_replay(cfg, id, &format!("{}/hang", id), if computing { "case consumed more than 100 s of CPU time without finishing" } else { "case did not finish within an hour of wall-clock time (the machine was busy: the case itself consumed little CPU time)" }, wi, idx);
+                if id == "C16" && computing {
                     println!("VIOLATION property=C16 replay={}", replay);
                     std::process::exit(1);
                 }
@@ -435,4 +449,46 @@ pub fn write_replay(cfg: &RunCfg, id: &str, sig: &str, msg: &str, workload: usiz
     });
     let _ = std::fs::write(&path, serde_json::to_string_pretty(&v).unwrap());
     path
+}
+
+/// Kernel id of the calling thread (0 if /proc is not available).
+fn own_tid() -> u64 {
+    std::fs::read_link("/proc/thread-self").ok().and_then(|p| p.file_name().and_then(|n| n.to_str().and_then(|n| n.parse().ok()))).unwrap_or(0)
+}
+
+/// CPU time (user + system) consumed so far by a thread of this process, in milliseconds.
+fn thread_cpu_ms(tid: u64) -> u64 {
+    if tid == 0 {
+        return 0;
+    }
+    let Ok(stat) = std::fs::read_to_string(format!("/proc/self/task/{}/stat", tid)) else { return 0 };
+    // fields after the command name (which may contain spaces): state is field 3, utime 14, stime 15
+    let Some(rest) = stat.rsplit_once(')').map(|x| x.1) else { return 0 };
+    let f: Vec<&str> = rest.split_whitespace().collect();
+    let (Some(u), Some(s)) = (f.get(11).and_then(|x| x.parse::<u64>().ok()), f.get(12).and_then(|x| x.parse::<u64>().ok())) else { return 0 };
+    // USER_HZ is 100 on Linux
+    (u + s) * 10
+}
+
+#[cfg(test)]
+mod watchdog_tests {
+    use super::*;
+
+    #[test]
+    fn thread_cpu_time_counts_computation_only() {
+        let tid = own_tid();
+        assert!(tid != 0);
+        let c0 = thread_cpu_ms(tid);
+        std::thread::sleep(Duration::from_millis(300));
+        let c1 = thread_cpu_ms(tid);
+        assert!(c1 - c0 < 100, "sleeping consumed {} ms of CPU", c1 - c0);
+        let t = Instant::now();
+        let mut x = 0u64;
+        while t.elapsed() < Duration::from_millis(400) {
+            x = x.wrapping_mul(6364136223846793005).wrapping_add(1);
+        }
+        std::hint::black_box(x);
+        let c2 = thread_cpu_ms(tid);
+        assert!(c2 - c1 >= 150, "spinning for 400 ms consumed only {} ms of CPU", c2 - c1);
+    }
 }
